@@ -1267,6 +1267,11 @@ class disasmEngine(object):
             lines_cpt += 1
             if self.lines_wd is not None and lines_cpt > self.lines_wd:
                 log_asmblock.debug("lines watchdog reached at %X", int(offset))
+                if cur_block.lines:
+                    # The block is full: the next instruction starts a new block
+                    loc_key_cst = self.loc_db.get_or_create_offset_location(offset)
+                    cur_block.add_cst(loc_key_cst, AsmConstraint.c_next)
+                    offsets_to_dis.add(offset)
                 break
 
             if offset in job_done:
